@@ -108,7 +108,15 @@ def catalogue(funcs):
     cut = [(d, loc) for d, loc in cube if set(d) != {1, 3, 5}]
     cut += [((5, 1, 6), (1, 0.5, 1)), ((1, 3, 6), (1, 1, 0.5)), ((3, 5, 6), (0.5, 1, 1))]
     cut_planes = CR.CUBE_PLANES + [((-1, -1, -1), (1, 1, 0.5))]
-    return [('initial cube cell', CR.CUBE_PLANES, cube), ('tetrahedron', tet_planes, tet), ('corner-cut cube', cut_planes, cut)]
+    # square pyramid over the unit square with apex (1/2,1/2,1): four side planes meet in the apex, which the library represents as two
+    # vertices at the SAME location joined by a zero-length edge (here along planes 1 and 3) - as produced by exact ties (lattices).
+    # base z=0 (plane 0, inward +z); sides: 1: y=0 side, 2: x=1 side, 3: y=1 side, 4: x=0 side (inward normals)
+    pyr_planes = [((0, 0, 1), (0, 0, 0)), ((0, 2, -1), (0, 0, 0)), ((-2, 0, -1), (1, 0, 0)), ((0, -2, -1), (0, 1, 0)), ((2, 0, -1), (0, 0, 0))]
+    H = Fraction(1, 2)
+    pyr = [((0, 4, 1), (0, 0, 0)), ((0, 1, 2), (1, 0, 0)), ((0, 2, 3), (1, 1, 0)), ((0, 3, 4), (0, 1, 0)),
+           ((1, 3, 2), (H, H, 1)), ((1, 4, 3), (H, H, 1))]
+    return [('initial cube cell', CR.CUBE_PLANES, cube), ('tetrahedron', tet_planes, tet), ('corner-cut cube', cut_planes, cut),
+            ('square pyramid with a 4-valent apex (two coincident vertices)', pyr_planes, pyr)]
 
 
 def combinatorics(run, funcs, nseeds):
@@ -155,10 +163,28 @@ def combinatorics(run, funcs, nseeds):
             i3, o3 = with_faces(funcs, c3)
             if face_lists(o3[0][1]) != lists:
                 run.suspect.append('C15 %s[order %s]: discard_faces().with_faces() changes the face lists' % (cname, seed))
+    mine = [s for s in run.suspect if s.startswith('C15 ') and 'accessor' not in s]
+    if mine:
+        bad = check_polytope_native({'kind': 'polytope'})
+        if bad:
+            run.violation('C15 with_faces: %s; natively: %s' % (mine[0][:200], bad), engine.save_replay('C15', {'kind': 'polytope'}))
+            run.suspect[:] = [s for s in run.suspect if s not in mine]
     run.obligations.append({'name': 'C15 catalogue combinatorics: %d executions of with_faces / discard_faces through the interpreter (3 cells x seeded storage orders and dual rotations)' % total,
                             'expect': 'unsat', 'verdict': 'unsat' if not [s for s in run.suspect if s.startswith('C15 ')] else 'sat',
                             'solver': 'concrete execution of the MIR + structural checks', 'solver_s': 0.0})
     run.bound('catalogue: initial cube, tetrahedron, corner-cut cube; %d seeded storage orders / dual rotations each' % (nseeds + 1))
+
+
+def check_polytope_native(p, profile='debug'):
+    """combinatorial validity of real cells with face information: fcc lattice (exact ties, 4-valent corners), cubic lattice, generic set"""
+    for prof in ('debug', 'release'):
+        for kind in (0, 1, 2):
+            o = engine.native(['polytope_check %d' % kind], prof)[0]
+            if o[0] != 'ok':
+                return 'with_faces on %s panicked (%s build): %s' % (['an fcc lattice', 'a cubic lattice', 'a generic set'][kind], prof, ' '.join(o[1:12]))
+            if o[1] != 'valid':
+                return '%s: %s [%s build]' % (['fcc lattice', 'cubic lattice', 'generic set'][kind], ' '.join(o[1:40]), prof)
+    return None
 
 
 def rejected_in_lower_dimensions(run, funcs):
@@ -264,7 +290,7 @@ def replay(path):
     from . import staterules as SR
     if d['kind'] in SR.NATIVE:
         return SR.replay(d)
-    f = {'with_faces_lowdim': check_lowdim_native, 'accessor_own_image': check_accessor_native}[d['kind']]
+    f = {'with_faces_lowdim': check_lowdim_native, 'accessor_own_image': check_accessor_native, 'polytope': check_polytope_native}[d['kind']]
     bad = f(d)
     print(bad)
     return 1 if bad else 0
